@@ -48,10 +48,10 @@ class ConnectComp(TimeComponent):
                     if i.get("rule_units") and i.get("rule_override"):
                         # everything is taken over first; later rules overwrite single fields
                         in_rules[i["name"]] = [FromOutput(i["info"][1]), FromValue("time", self.time),
-                                               FromValue("units", i["rule_units"])]
+                                               FromValue("units", None if i["rule_units"] == "open" else i["rule_units"])]
                     elif i.get("rule_units"):
                         in_rules[i["name"]] = [FromOutput(i["info"][1], ["grid"]), FromValue("time", self.time),
-                                               FromValue("units", i["rule_units"])]
+                                               FromValue("units", None if i["rule_units"] == "open" else i["rule_units"])]
                     elif i.get("rule_form") == "fields":
                         in_rules[i["name"]] = [FromOutput(i["info"][1], ["time", "units"]), FromValue("grid", NoGrid()),
                                                FromValue("time", self.time)]
@@ -109,6 +109,11 @@ class ConnectComp(TimeComponent):
         # try_connect again (redundant but supported: the helper then exchanges the input's own info)
         ex = {i["name"]: Info(time=self.time, grid=NoGrid(), units=i.get("units")) for i in s["inputs"]
               if i["info"] in ("connect", "known+connect")}
+        self._n_connect = getattr(self, "_n_connect", 0) + 1
+        if s.get("ex_once") and self._n_connect > 1:
+            # "it is sufficient to provide only infos that became newly available": everything was handed over in the
+            # first call, the helper keeps what it could not exchange yet
+            ex = {}
         pi = {o["name"]: self._info() for o in s["outputs"] if o["info"] == "connect"}
         pd = {}
         for o in s["outputs"]:
@@ -211,6 +216,10 @@ def expected_values(sc):
 
     def in_units(ci, ii, depth=0):
         i = comps[ci]["inputs"][ii]
+        if i.get("rule_units") == "open":
+            # FromValue("units", None): the rule leaves the units open - they are the linked output's
+            (sci, soi), _ = feed[(ci, ii)]
+            return out_units(sci, soi, depth + 1) if depth < 30 else "m"
         if i.get("rule_units"):
             return i["rule_units"]
         if isinstance(i["info"], list) and depth < 30:
@@ -445,6 +454,8 @@ def run_e2(sc):
                     want_u = None
                     if isinstance(ispec["info"], list):
                         want_u = ispec.get("rule_units")
+                        if want_u == "open":
+                            want_u = oi_.units         # left open by the rule: the delivered units
                     elif ispec["info"] in ("known", "known+connect"):
                         want_u = ispec.get("units") or oi_.units
                     if not compatible_units(oi_.units, ii_.units):
